@@ -338,3 +338,28 @@ func withDecl(m func(p *Prog) (string, []byte, error), decl string) func(p *Prog
 		return file, append(append([]byte{}, src...), []byte("\n"+decl+"\n")...), nil
 	}
 }
+
+// replaceInFile replaces the first occurrence of old in the repository file with that
+// path suffix (for declarations that are not inside a function).
+func replaceInFile(suffix, old, new string) func(p *Prog) (string, []byte, error) {
+	return func(p *Prog) (string, []byte, error) {
+		for _, pk := range p.Pkgs {
+			for _, f := range pk.CompiledGoFiles {
+				if !strings.HasSuffix(f, suffix) || strings.HasSuffix(f, "_test.go") {
+					continue
+				}
+				src, err := os.ReadFile(f)
+				if err != nil {
+					return "", nil, err
+				}
+				i := strings.Index(string(src), old)
+				if i < 0 {
+					return "", nil, errNotFound(fmt.Sprintf("text %q in %s", old, suffix))
+				}
+				out := string(src[:i]) + new + string(src[i+len(old):])
+				return f, []byte(out), nil
+			}
+		}
+		return "", nil, errNotFound("file " + suffix)
+	}
+}
